@@ -4,7 +4,7 @@
    This file only restates the property theorems; proofs are in frame/*Proofs.v. *)
 From Coq Require Import List NArith ZArith Bool.
 From JV Require Import Bytes FrameBase FrameBaseProofs FrameSpec Split SplitProofs Hdr HdrProofs
-  HdrSpec HdrSpecProofs JsonScan JsonScanProofs RawJson RawJsonProofs FrameMore Chunked ChunkedProofs.
+  HdrSpec HdrSpecProofs JsonScan JsonScanProofs RawJson RawJsonProofs FrameMore Chunked ChunkedProofs ChunkedHdr ChunkedHdrProofs.
 From RecordUpdate Require Import RecordUpdate.
 From JV Require Import Msg SrvModel SrvC12.
 Import ListNotations.
@@ -90,6 +90,18 @@ Theorem c12_hdr_no_crash_all : forall p want st s,
   st <= buf_bound -> clean (Hdr.recv_all cfg_fixed p want st s).
 Proof. exact hdr_recv_all_clean. Qed.
 Print Assumptions c12_hdr_no_crash_all.
+
+(* fragmentation (ChunkedHdr.v): one Recv from ANY reachable reader state, for every request
+   schedule of the CopyN path, both defect switches (a crash of one side is a crash of the other) *)
+Theorem c12_hdr_chunked_recv : forall c eager req p want st r x,
+  wf bufio_size r ->
+  forget (chdr_recv c eager req p want (st, r) x) = Hdr.recv c p want st (stream r) /\
+  match chdr_recv c eager req p want (st, r) x with
+  | Ok _ st' rest | OkWithErr _ _ st' rest | Err _ st' rest => wf bufio_size (snd st') /\ stream (snd st') = rest
+  | _ => True
+  end.
+Proof. exact hdr_chunked_recv_state. Qed.
+Print Assumptions c12_hdr_chunked_recv.
 
 Theorem c12_refuted_without_F5 :
   Hdr.recv cfg_without_F5 Strict [] 0 stream_maxint = Crash MakeSliceRange /\
